@@ -588,6 +588,13 @@ def build_template(t):
     if t["prog"] == "echo":
         prog, sep = "echo ", " "
         gaps = list(t.get("gaps") or [" "] * (len(fields) - 1))
+    elif t["prog"] == "printfws":
+        # standard output laid out with other white space than single blanks (one number per line, tabs, aligned columns, a
+        # table): the default separator is "white space".  Only used where the parsed array is judged (never the command line).
+        ws = list(t.get("ws") or ["\\n"] * (len(fields) - 1))
+        prog = "printf '%s' " % ("%s" + "".join(w + "%s" for w in ws) + t.get("tail", "\\n"))
+        sep = " "
+        gaps = [" "] * (len(fields) - 1)
     else:
         sep = t.get("sep", ",")
         prog = "printf '%s' " % sep.join(["%s"] * len(fields))
@@ -606,7 +613,7 @@ def build_template(t):
     s = prog
     for q, p in enumerate(parts):
         s += p + (gaps[q] if q < len(parts) - 1 else "")
-    return s, dict(prog=prog, fields=logf, gaps=gaps, sep=sep), sep
+    return s, dict(prog="printfws " if t["prog"] == "printfws" else prog, fields=logf, gaps=gaps, sep=sep), sep
 
 
 def gen_state_label(rs):
@@ -886,10 +893,13 @@ def ext_scenarios(ctx, rnd):
         for t in templates:
             fields = [dict(f) for f in t]
             path = pick(["dtype", "args", "dtype"])
-            prog = pick(["echo", "echo", "printf"])
+            prog = pick(["echo", "echo", "printf"] + (["printfws"] if path == "dtype" else []))
             tm = dict(prog=prog, fields=fields)
             if prog == "echo":
                 tm["gaps"] = [pick([" ", "  ", " ", "   "]) for _ in range(len(fields) - 1)]
+            elif prog == "printfws":
+                tm["ws"] = [pick(["\\n", "\\t", "  ", " \\n", "\\n\\n"]) for _ in range(len(fields) - 1)]
+                tm["tail"] = pick(["\\n", "", " \\n\\n"])
             else:
                 tm["sep"] = pick([",", ";"])
             events.append(dict(tmpl=tm, path=path, req=req_for(fields, c) if path == "dtype" else "none", vec=c["vec"],
@@ -952,10 +962,13 @@ def ext_scenarios(ctx, rnd):
             fields = [dict(rnd.choice(alphabet)) for _f in range(rnd.randint(1, 5))]
             cdesc = dict(rs=rs, frac_pos=frac_pos, frac_kw=[n for n in kw if isinstance(kw[n], float)])
             path = rnd.choice(["dtype", "dtype", "args"])
-            prog = rnd.choice(["echo", "echo", "printf"])
+            prog = rnd.choice(["echo", "echo", "printf"] + (["printfws"] if path == "dtype" else []))
             tm = dict(prog=prog, fields=fields)
             if prog == "echo":
                 tm["gaps"] = [rnd.choice([" ", "  ", "\t"]) for _ in range(len(fields) - 1)]
+            elif prog == "printfws":
+                tm["ws"] = [rnd.choice(["\\n", "\\t", "  ", " \\n", "\\n\\n"]) for _ in range(len(fields) - 1)]
+                tm["tail"] = rnd.choice(["\\n", "", " \\n\\n"])
             else:
                 tm["sep"] = rnd.choice([",", ";", ":"])
             e = dict(tmpl=tm, path=path, req=req_for(fields, cdesc) if path == "dtype" else "none", vec=vec,
